@@ -23,11 +23,12 @@ TReset == /\ IsEv("Reset")
           /\ proj' = Ev.p
           /\ os' = Ev.os
           /\ pend' = 0
-          /\ cfg' = [arch |-> Ev.arch, em |-> Ev.em, hk |-> Ev.hk, att |-> Ev.att, vi |-> Ev.vi]
+          /\ cfg' = [arch |-> Ev.arch, em |-> Ev.em, hk |-> Ev.hk, att |-> Ev.att, vi |-> Ev.vi, va |-> Ev.va, fast |-> Ev.fast]
 
 TCall == /\ IsEv("Call")
          /\ Call(Ev.k, Ev.r, Ev.hc, Ev.th, Ev.oi, Ev.p, Ev.os,
-                 IF Has(Ev, "vr") THEN Ev.vr ELSE 0, IF Has(Ev, "sh") THEN Ev.sh ELSE 0)
+                 IF Has(Ev, "vr") THEN Ev.vr ELSE 0, IF Has(Ev, "sh") THEN Ev.sh ELSE 0,
+                 IF Has(Ev, "fr") THEN Ev.fr ELSE 0, IF Has(Ev, "tw") THEN Ev.tw ELSE Ev.r)
 
 TProbe == /\ IsEv("Probe")
           /\ Probe(Ev.u, Ev.f, Ev.p, Ev.os)
